@@ -163,7 +163,56 @@ func Filler(n int, tag uint64) []byte {
 		x ^= x << 17
 		out[i] = byte(x >> 24)
 	}
+	// Content styles: half of the tags give plain pseudo-random octets, the others content that
+	// a format-unaware copy never notices but a content-dependent slip does: runs of 0x00 / 0xff,
+	// octets >= 0x80 only, text full of the delimiters the formats use, content that begins with
+	// a magic number or looks like CBOR, content ending in a delimiter. Any content is a legal
+	// payload / body / byte string, so no oracle depends on the style.
+	h := (tag*0xD6E8FEB86659FD93 + 0x2545F4914F6CDD1D) >> 59 // 0..31
+	switch {
+	case h == 16:
+		for i := range out {
+			out[i] = 0
+		}
+	case h == 17:
+		for i := range out {
+			out[i] = 0xff
+		}
+	case h == 18:
+		for i := range out {
+			out[i] |= 0x80
+		}
+	case h == 19 || h == 20:
+		const delims = "\",;=\\ \t\r\n:*/%+?#&'()<>@[]{}`^|~\x00\x7f"
+		for i := range out {
+			out[i] = delims[int(out[i])%len(delims)]
+		}
+	case h >= 21 && h <= 24:
+		m := fillerMagics[int(h-21)%len(fillerMagics)]
+		copy(out, m)
+	case h == 25:
+		// well-formed looking CBOR: arrays of byte strings
+		for i := 0; i+3 < len(out); i += 4 {
+			out[i], out[i+1] = 0x82, 0x41
+			out[i+2] = 0x41
+		}
+	case h == 26 && n > 0:
+		out[n-1] = "\\=\x00\n\",\xff"[int(out[n-1])%7]
+	case h == 27:
+		// identical 32-octet blocks (equal MI records, equal map values)
+		for i := 32; i < len(out); i++ {
+			out[i] = out[i-32]
+		}
+	}
 	return out
+}
+
+// magic numbers of the formats (a payload may well begin with them)
+var fillerMagics = [][]byte{
+	{0x86, 0x48, 0xF0, 0x9F, 0x8C, 0x90, 0xF0, 0x9F, 0x93, 0xA6, 0x44, 'b', '2', 0, 0},
+	[]byte("sxg1-b3\x00\x00\x00\x10https://a.example/"),
+	{0x84, 0x48, 0xF0, 0x9F, 0x8C, 0x90, 0xF0, 0x9F, 0x93, 0xA6, 0x44, 'b', '1', 0, 0}, // (the integrity-block magic is left out: a file beginning with it IS a signed file)
+	{0x82, 0x67, 0xF0, 0x9F, 0x93, 0x9C, 0xE2, 0x9B, 0x93, 0xA1, 0x64, 'c', 'e', 'r', 't'},
 }
 
 func init() { _ = fmt.Sprint }
